@@ -74,7 +74,10 @@ type task struct {
 	waitObj  uintptr // address of the object the task is parked on (0: none)
 	waitDir  int     // channel operations: direction the task is parked for
 	rv       bool    // woken for an unbuffered rendezvous
-	waitKids bool    // parked until all of its children are done
+	rvIdx    int     // ... on this case of the select it is parked in
+	sel      [MaxSelect]selWait
+	nsel     int  // > 0: parked in a select on these (channel, direction) pairs
+	waitKids bool // parked until all of its children are done
 	parent   int32
 	kids     int32 // live children
 	prio     uint32
@@ -509,8 +512,18 @@ func wake(obj uintptr) {
 	s := cur
 	for i := int32(0); i < s.ntasks; i++ {
 		t := s.tasks[i]
-		if t.blocked && t.waitObj == obj {
+		if !t.blocked {
+			continue
+		}
+		if t.waitObj == obj && obj != 0 {
 			t.blocked, t.waitObj = false, 0
+			continue
+		}
+		for j := 0; j < t.nsel; j++ {
+			if t.sel[j].key == obj {
+				t.blocked, t.nsel = false, 0
+				break
+			}
 		}
 	}
 }
